@@ -247,11 +247,16 @@ VecInit == \/ \E q \in AttBase : st = [m |-> "vec", op |-> "seed", fam |-> "att"
            \/ \E dt \in AlphaDts : st = [m |-> "vec", op |-> "seed", fam |-> "alpha", dt |-> dt]
            \/ \E s1 \in StickSet : st = [m |-> "vec", op |-> "seed", fam |-> "stick", s1 |-> s1]
            \/ \E lim \in RateLims : st = [m |-> "vec", op |-> "seed", fam |-> "ratex", lim |-> lim]
+           \/ \E zmax \in PosZmax : st = [m |-> "vec", op |-> "seed", fam |-> "posx", zmax |-> zmax]
 (* the property quantifies over ALL previous integrator states and limits, also a previous state that
    lies outside the current limit (limit lowered / re-tuned between two steps, state set externally):
    the OUTPUT must still be inside +-i_max.  Same record shape as a RateStep of the recursion (op RateAny).        *)
 RateOutside(lim) == { <<2*lim[1] + 1, -3*lim[2] - 2, lim[3] + 5>>, <<-lim[1] - 4, lim[2], 7*lim[3] + 1>>,
                       <<lim[1], 2*lim[2] + 3, -2*lim[3] - 1>>, <<-5*lim[1] - 1, -lim[2] - 1, -lim[3] - 9>> }
+(* the same for the height integrator of the position controller (op PosAny, record shape of a PosStep): a previous
+   value outside [-zmax, zmax] -- with the shipped zmax = 0 that is every non-zero value -- and a PD term in every cell,
+   in particular a SATURATED one (an anti-windup "hold while saturated" keeps an outside value outside) *)
+PosOutside(zmax) == { zmax + 3, -zmax - 1, 2 * zmax + 7, -5 * zmax - 2 }
 PScales(nb) == { 0, 1, PD \div nb - 1, PD \div nb, PD \div nb + 1, 2 * (PD \div nb), 5 * (PD \div nb) }
 Expand == /\ st.op = "seed"
           /\ \/ /\ st.fam = "att"
@@ -267,6 +272,12 @@ Expand == /\ st.op = "seed"
                       st' = [m |-> "vec", op |-> "RateAny", lim |-> st.lim,
                              i |-> ClampV(VAdd(i0, VScale(dt, e)), st.lim),
                              pre |-> [i |-> i0], in |-> [e |-> e, dt |-> dt]]
+             \/ /\ st.fam = "posx"
+                /\ \E z0 \in PosOutside(st.zmax), ez \in PosEz, dt \in PosDts, P \in PosPs :
+                      st' = [m |-> "vec", op |-> "PosAny", zmax |-> st.zmax,
+                             z |-> Clamp(z0 - ez * dt, -st.zmax, st.zmax),
+                             pre |-> [z |-> z0], in |-> [ez |-> ez, dt |-> dt, P |-> P],
+                             psat |-> Sat(P), cell |-> PCell(P)]
              \/ /\ st.fam = "alpha"
                 /\ \E f \in AlphaFs : st' = AlphaVec(st.dt, f)
              \/ /\ st.fam = "stick"
@@ -290,6 +301,7 @@ SpecRec == InitRec /\ [][NextRec]_st
 Bound(s) ==
     /\ s.m = "rate" => InBox(s.i, s.lim)
     /\ (s.m = "vec" /\ s.op = "RateAny") => InBox(s.i, s.lim)          \* output inside, whatever the previous state
+    /\ (s.m = "vec" /\ s.op = "PosAny") => -s.zmax <= s.z /\ s.z <= s.zmax     \* output inside, whatever the previous value
     /\ s.m = "pos"  => /\ -s.zmax <= s.z /\ s.z <= s.zmax
                        /\ s.op = "PosStep" => NormSq(s.psat.num) <= s.psat.den * s.psat.den
     /\ s.m \in {"vel", "yaw"} =>
@@ -302,7 +314,7 @@ BoundStep == [][Bound(st) => Bound(st')]_st             \* inductive step, as an
 (* independent characterisations of the expected values *)
 RateLaw == st.op \in {"RateStep", "RateAny"} =>
               \A k \in 1..3 : Nearest1(st.pre.i[k] + st.in.e[k] * st.in.dt, st.lim[k], st.i[k])
-PosLaw  == st.op = "PosStep" =>
+PosLaw  == st.op \in {"PosStep", "PosAny"} =>
               /\ Nearest1(st.pre.z - st.in.ez * st.in.dt, st.zmax, st.z)
               /\ SatLaw(st.in.P, st.psat)
 PSatLaw == st.op = "psat" => SatLaw(st.P, st.psat)
